@@ -316,13 +316,31 @@ fn has_cdata(evs: &[X]) -> bool {
 const SPECIAL: &[&str] = &[
     "&", "<", ">", "\"", "'", " ", " ", "  ", "\t", "\n", "\r", "\r\n", "]", "]]>", "&amp;", "&#10;", "<![CDATA[", "_x000D_",
     "_x0041_", "é", "ß", "Ω", "日本", "\u{FEFF}", "\u{FFFD}", "\u{D7FF}", "\u{E000}", "\u{2028}", "\u{85}", "\u{A0}", "\u{200B}",
-    "😀", "\u{10000}", "\u{10FFFF}", "𝒳", "\u{BBEF}\u{BF}", "\u{FFFE}", "0", "1e5", "-", "+", "=", "%", ";", "#", "x:", "a", "Z",
+    "\u{3000}", "\u{A0} ", "Ã©", "Â£", "Ã¤Ã¶", "Ã\u{BF}", "😀", "\u{10000}", "\u{10FFFF}", "𝒳", "\u{BBEF}\u{BF}", "\u{FFFE}", "0", "1e5", "-", "+", "=", "%", ";", "#", "x:", "a", "Z",
 ];
 
 fn gen_string(rng: &mut Rng, quick: bool) -> String {
     let kind = rng.below(100);
     if kind < 3 {
         return String::new();
+    }
+    if kind == 3 || kind == 4 {
+        // texts that look like another kind of value: error literals, numbers, booleans, dates
+        return rng
+            .pick(&[
+                "#N/A", "#DIV/0!", "#NAME?", "#NULL!", "#NUM!", "#REF!", "#VALUE!", "#GETTING_DATA", "TRUE", "FALSE", "true", "1", "0", "-1.5e3", "1E5", "inf",
+                "NaN", "2020-01-02", "2020-01-02T03:04:05", "PT1H", "12:30", "0x10", " 1", "1 ", "١٢", "1,5",
+            ])
+            .to_string();
+    }
+    if kind == 5 {
+        // blanks of every kind around a word
+        let b = ["", " ", "  ", "\u{A0}", "\u{3000}", "\t", "\n", " \u{A0} "];
+        return format!("{}{}{}", rng.pick(&b), rng.pick(&["x", "a b", "é"]), rng.pick(&b));
+    }
+    if kind == 6 {
+        // Latin-1 text whose bytes in a single-byte encoding are valid UTF-8 sequences
+        return (0..rng.range(1, 5)).map(|_| *rng.pick(&["Ã©", "Â£", "Ã¤", "Ã\u{BF}", "a", " ", "é", "Â\u{A0}", "<", "&"])).collect();
     }
     let target = if kind < 55 {
         rng.range(1, 6)
@@ -403,6 +421,8 @@ struct CellCase {
 
 #[derive(Clone, Debug)]
 struct XlsxCase {
+    /// write the sheet and the shared string part in a declared single-byte encoding (windows-1252)
+    latin: bool,
     pfx: String,
     /// events of the shared string part from `<sst>` to `</sst>` (empty = no part)
     sst: Vec<X>,
@@ -411,6 +431,8 @@ struct XlsxCase {
 
 #[derive(Clone, Debug)]
 struct OdsCase {
+    /// write content.xml in a declared single-byte encoding (windows-1252)
+    latin: bool,
     cells: Vec<CellCase>,
 }
 
@@ -484,12 +506,13 @@ impl Case {
     fn text(&self) -> String {
         match self {
             Case::Xlsx(c) => format!(
-                "xlsx|{}|{}|{}",
+                "xlsx{}|{}|{}|{}",
+                if c.latin { "l" } else { "" },
                 if c.pfx.is_empty() { "-" } else { &c.pfx },
                 wire(&c.sst),
                 c.cells.iter().map(cell_text).collect::<Vec<_>>().join(";")
             ),
-            Case::Ods(c) => format!("ods|{}", c.cells.iter().map(cell_text).collect::<Vec<_>>().join(";")),
+            Case::Ods(c) => format!("ods{}|{}", if c.latin { "l" } else { "" }, c.cells.iter().map(cell_text).collect::<Vec<_>>().join(";")),
             Case::Xlsb(c) => format!(
                 "xlsb|{}|{}",
                 c.sst.iter().map(|(f, u, t)| format!("{}!{}!{}", f, u16hex(u), hx(t))).collect::<Vec<_>>().join(";"),
@@ -510,12 +533,12 @@ impl Case {
         let p: Vec<&str> = s.split('|').collect();
         let list = |x: &str| -> Vec<String> { if x.is_empty() { vec![] } else { x.split(';').map(|y| y.to_string()).collect() } };
         match p[0] {
-            "xlsx" => Case::Xlsx(XlsxCase {
+            "xlsx" | "xlsxl" => Case::Xlsx(XlsxCase { latin: p[0] == "xlsxl",
                 pfx: if p[1] == "-" { String::new() } else { p[1].into() },
                 sst: parse_wire(p[2]),
                 cells: list(p[3]).iter().map(|c| parse_cell(c)).collect(),
             }),
-            "ods" => Case::Ods(OdsCase { cells: list(p[1]).iter().map(|c| parse_cell(c)).collect() }),
+            "ods" | "odsl" => Case::Ods(OdsCase { latin: p[0] == "odsl", cells: list(p[1]).iter().map(|c| parse_cell(c)).collect() }),
             "xlsb" => Case::Xlsb(XlsbCase {
                 sst: list(p[1])
                     .iter()
@@ -539,7 +562,7 @@ impl Case {
     fn only(&self, i: usize) -> Case {
         match self {
             Case::Xlsx(c) => Case::Xlsx(XlsxCase { cells: vec![c.cells[i].clone()], ..c.clone() }),
-            Case::Ods(c) => Case::Ods(OdsCase { cells: vec![c.cells[i].clone()] }),
+            Case::Ods(c) => Case::Ods(OdsCase { latin: c.latin, cells: vec![c.cells[i].clone()] }),
             Case::Xlsb(c) => Case::Xlsb(XlsbCase { cells: vec![c.cells[i].clone()], ..c.clone() }),
             Case::Xls(c) => Case::Xls(XlsCase { cells: vec![c.cells[i].clone()], ..c.clone() }),
         }
@@ -629,8 +652,11 @@ fn ws(rng: &mut Rng, out: &mut Vec<X>) {
 fn t_elem(rng: &mut Rng, pfx: &str, s: &str, esc: Esc) -> Vec<X> {
     let name = q(pfx, "t");
     let mut attrs: Vec<(&str, &str)> = vec![];
-    if rng.chance(1, 2) {
-        attrs.push(("xml:space", "preserve"));
+    // calamine keeps the character data whatever xml:space says (absent / preserve / default)
+    match rng.below(5) {
+        0 | 1 => attrs.push(("xml:space", "preserve")),
+        2 => attrs.push(("xml:space", "default")),
+        _ => {}
     }
     if s.is_empty() && rng.chance(1, 2) {
         return vec![em(&name, &attrs)];
@@ -896,7 +922,7 @@ fn gen_xlsx(rng: &mut Rng, s: &str, pfx: &str) -> XlsxCase {
         }
         cells.push(CellCase { t: Some("str".into()), kids, expect: Some(s.to_string()), label });
     }
-    XlsxCase { pfx: pfx.to_string(), sst, cells }
+    XlsxCase { latin: false, pfx: pfx.to_string(), sst, cells }
 }
 
 fn xlsx_sheet_data(c: &XlsxCase) -> String {
@@ -940,6 +966,25 @@ fn xlsx_bytes(c: &XlsxCase) -> Vec<u8> {
     l.prefix = p.clone();
     l.seed = 7;
     let built = book.build(&l);
+    if c.latin {
+        let parts: Vec<(String, Vec<u8>)> = built
+            .parts
+            .into_iter()
+            .filter(|(n, _)| !(c.sst.is_empty() && n.to_ascii_lowercase().ends_with("sharedstrings.xml")))
+            .map(|(n, b)| {
+                let low = n.to_ascii_lowercase();
+                if low.ends_with("sharedstrings.xml") || low.ends_with("sheet1.xml") {
+                    let text = String::from_utf8(b).unwrap();
+                    assert!(latin_ok(&text));
+                    let k = text.len() as u64;
+                    (n, to_latin(&text, k))
+                } else {
+                    (n, b)
+                }
+            })
+            .collect();
+        return xlsxw::zip_parts(&parts, xlsxw::Compression::Deflated, &mut Rng::new(1));
+    }
     if c.sst.is_empty() {
         // no shared string part at all
         let parts: Vec<(String, Vec<u8>)> = built.parts.into_iter().filter(|(n, _)| !n.to_ascii_lowercase().ends_with("sharedstrings.xml")).collect();
@@ -1132,7 +1177,7 @@ fn gen_ods(rng: &mut Rng, s: &str) -> OdsCase {
         kids.push(en(tag));
         cells.push(CellCase { t: Some(format!("raw:{code}")), kids, expect: Some(s.to_string()), label: format!("ods.string_value.{}", ["first", "natural", "permuted"][k]) });
     }
-    OdsCase { cells }
+    OdsCase { latin: false, cells }
 }
 
 fn ods_cell_xml(c: &CellCase) -> String {
@@ -1170,7 +1215,49 @@ fn permuted_attrs(attrs: &[(String, String)], t: &str) -> Vec<(String, String)> 
     idx.into_iter().map(|i| attrs[i].clone()).collect()
 }
 
+/// can every character be written as one byte that means the same in windows-1252 and ISO-8859-1?
+fn latin_ok(s: &str) -> bool {
+    s.chars().all(|c| (c as u32) < 0x80 || (0xA0..=0xFF).contains(&(c as u32)))
+}
+
+/// an XML part re-encoded in a single-byte encoding, its declaration saying so
+fn to_latin(xml_text: &str, rng_pick: u64) -> Vec<u8> {
+    let label = ["windows-1252", "ISO-8859-1", "iso-8859-1", "latin1"][(rng_pick % 4) as usize];
+    let body = match xml_text.find("?>") {
+        Some(i) if xml_text.starts_with("<?xml") => &xml_text[i + 2..],
+        _ => xml_text,
+    };
+    let mut out = format!("<?xml version=\"1.0\" encoding=\"{label}\"?>").into_bytes();
+    out.extend(body.chars().map(|c| c as u32 as u8));
+    out
+}
+
 fn ods_bytes(c: &OdsCase) -> Vec<u8> {
+    if c.latin {
+        let rows: Vec<odsw::RowRun> = c
+            .cells
+            .iter()
+            .map(|cell| {
+                let mut oc = odsw::OdsCell::string("x");
+                oc.raw = Some(ods_cell_xml(cell));
+                odsw::RowRun::new(vec![oc])
+            })
+            .collect();
+        let book = odsw::OdsBook::new(vec![odsw::OdsSheet::new("S", rows)]);
+        let content = book.content_xml();
+        assert!(latin_ok(&content));
+        use std::io::Write;
+        let mut z = zip::ZipWriter::new(Cursor::new(Vec::new()));
+        let stored = zip::write::SimpleFileOptions::default().compression_method(zip::CompressionMethod::Stored);
+        let defl = zip::write::SimpleFileOptions::default().compression_method(zip::CompressionMethod::Deflated);
+        z.start_file("mimetype", stored).unwrap();
+        z.write_all(odsw::MIMETYPE.as_bytes()).unwrap();
+        z.start_file("META-INF/manifest.xml", defl).unwrap();
+        z.write_all(book.manifest_xml().as_bytes()).unwrap();
+        z.start_file("content.xml", defl).unwrap();
+        z.write_all(&to_latin(&content, c.cells.len() as u64 + content.len() as u64)).unwrap();
+        return z.finish().unwrap().into_inner();
+    }
     let rows = c
         .cells
         .iter()
@@ -1261,7 +1348,7 @@ fn gen_soup_cases(rng: &mut Rng) -> Vec<Case> {
         },
         CellCase { t: Some("^table".into()), kids: vec![], expect: None, label: "soup.xlsx.sst.table".into() },
     ];
-    v.push(Case::Xlsx(XlsxCase { pfx: pfx.into(), sst, cells }));
+    v.push(Case::Xlsx(XlsxCase { latin: false, pfx: pfx.into(), sst, cells }));
     // 2. one cell whose children are soup (inline string, value, formula in any order and nesting)
     let pfx = if rng.chance(1, 3) { "x" } else { "" };
     let mut kids = vec![];
@@ -1274,7 +1361,7 @@ fn gen_soup_cases(rng: &mut Rng) -> Vec<Case> {
     }
     let t = *rng.pick(&[Some("inlineStr"), Some("str"), Some("s"), Some("is")]);
     let sst1 = sst_of(pfx, vec![wrap_item(pfx, "si", vec![st(&q(pfx, "t"), &[]), tx("zero"), en(&q(pfx, "t"))], false)]);
-    v.push(Case::Xlsx(XlsxCase {
+    v.push(Case::Xlsx(XlsxCase { latin: false,
         pfx: pfx.into(),
         sst: sst1,
         cells: vec![CellCase { t: t.map(|x| x.to_string()), kids, expect: None, label: "soup.xlsx.cell".into() }],
@@ -1290,7 +1377,7 @@ fn gen_soup_cases(rng: &mut Rng) -> Vec<Case> {
         }
     };
     let kids = soup(rng, ODS_NAMES, &ods_attrs, 16);
-    v.push(Case::Ods(OdsCase { cells: vec![CellCase { t: if rng.chance(1, 5) { Some("covered".into()) } else { None }, kids, expect: None, label: "soup.ods.cell".into() }] }));
+    v.push(Case::Ods(OdsCase { latin: false, cells: vec![CellCase { t: if rng.chance(1, 5) { Some("covered".into()) } else { None }, kids, expect: None, label: "soup.ods.cell".into() }] }));
     v
 }
 
@@ -1996,7 +2083,7 @@ fn corpus() -> Vec<Case> {
     let t = |p: &str, s: &str| vec![st(&q(p, "t"), &[]), tx(s), en(&q(p, "t"))];
     let si = |p: &str, body: Vec<X>| wrap_item(p, "si", body, true);
     // D20: an empty <si/> (and a phonetic-only item) must keep its index
-    v.push(Case::Xlsx(XlsxCase {
+    v.push(Case::Xlsx(XlsxCase { latin: false,
         pfx: String::new(),
         sst: sst_of("", vec![si("", t("", "zero")), si("", vec![]), si("", t("", "two"))]),
         cells: vec![
@@ -2005,7 +2092,7 @@ fn corpus() -> Vec<Case> {
             shared_cell("", 2, "two", "xlsx.shared.plain.after_textless_item"),
         ],
     }));
-    v.push(Case::Xlsx(XlsxCase {
+    v.push(Case::Xlsx(XlsxCase { latin: false,
         pfx: String::new(),
         sst: sst_of(
             "",
@@ -2023,7 +2110,7 @@ fn corpus() -> Vec<Case> {
         r.push(en(&q(p, "r")));
         r
     };
-    v.push(Case::Xlsx(XlsxCase {
+    v.push(Case::Xlsx(XlsxCase { latin: false,
         pfx: "x".into(),
         sst: sst_of("x", vec![si("x", rich("x", "ri", "ch")), si("x", t("x", "plain"))]),
         cells: vec![shared_cell("x", 0, "rich", "xlsx.shared.rich.prefixed"), shared_cell("x", 1, "plain", "xlsx.shared.plain.prefixed")],
@@ -2033,7 +2120,7 @@ fn corpus() -> Vec<Case> {
         let mut kids = vec![st("x:is", &[])];
         kids.extend(rich("x", "in", "line"));
         kids.push(en("x:is"));
-        v.push(Case::Xlsx(XlsxCase {
+        v.push(Case::Xlsx(XlsxCase { latin: false,
             pfx: "x".into(),
             sst: vec![],
             cells: vec![CellCase { t: Some("inlineStr".into()), kids, expect: Some("inline".into()), label: "xlsx.inline.rich.prefixed".into() }],
@@ -2041,7 +2128,7 @@ fn corpus() -> Vec<Case> {
     }
     // D28: CDATA in <t> (shared, inline), in <v>, in text:p
     let cd = |p: &str, tag: &str| vec![st(&q(p, tag), &[]), tx("pre"), X::CData("a<b&c".into()), tx("post"), en(&q(p, tag))];
-    v.push(Case::Xlsx(XlsxCase {
+    v.push(Case::Xlsx(XlsxCase { latin: false,
         pfx: String::new(),
         sst: sst_of("", vec![si("", cd("", "t"))]),
         cells: vec![
@@ -2061,11 +2148,11 @@ fn corpus() -> Vec<Case> {
             },
         ],
     }));
-    v.push(Case::Ods(OdsCase {
+    v.push(Case::Ods(OdsCase { latin: false,
         cells: vec![CellCase { t: None, kids: cd("", "text:p"), expect: Some("prea<b&cpost".into()), label: "ods.lit.cdata.cdata.p1".into() }],
     }));
     // fixed edge cases of the forms
-    v.push(Case::Ods(OdsCase {
+    v.push(Case::Ods(OdsCase { latin: false,
         cells: vec![
             CellCase {
                 t: None,
@@ -2079,7 +2166,7 @@ fn corpus() -> Vec<Case> {
             CellCase { t: None, kids: vec![st("text:p", &[]), tx("a"), em("text:tab", &[]), tx("b"), em("text:line-break", &[]), tx("c"), en("text:p")], expect: None, label: "ods.text_tab_line_break".into() },
         ],
     }));
-    v.push(Case::Xlsx(XlsxCase {
+    v.push(Case::Xlsx(XlsxCase { latin: false,
         pfx: String::new(),
         sst: vec![],
         cells: vec![
@@ -2092,7 +2179,7 @@ fn corpus() -> Vec<Case> {
         ],
     }));
     // a shared-string index past the table: an error, not a panic (observed: outside this property)
-    v.push(Case::Xlsx(XlsxCase {
+    v.push(Case::Xlsx(XlsxCase { latin: false,
         pfx: String::new(),
         sst: sst_of("", vec![si("", t("", "only"))]),
         cells: vec![CellCase { t: Some("s".into()), kids: vec![st("v", &[]), tx("1"), en("v")], expect: None, label: "xlsx.shared.index_out_of_range".into() }],
@@ -2120,6 +2207,63 @@ fn corpus() -> Vec<Case> {
         }));
     }
     // D36 (xls): an empty LABEL / shared / formula string
+    // seeded C19-m17: a part in a declared single-byte encoding whose text bytes look like UTF-8
+    {
+        let s = "Ã© caf\u{E9} Â£5";
+        v.push(Case::Ods(OdsCase {
+            latin: true,
+            cells: vec![CellCase { t: None, kids: vec![st("text:p", &[]), tx(s), en("text:p")], expect: Some(s.into()), label: "ods.lit.lit.latin1.p1".into() }],
+        }));
+        v.push(Case::Xlsx(XlsxCase {
+            latin: true,
+            pfx: String::new(),
+            sst: sst_of("", vec![si("", t("", s))]),
+            cells: vec![
+                shared_cell("", 0, s, "xlsx.shared.plain.latin1"),
+                CellCase { t: Some("str".into()), kids: vec![st("v", &[]), tx(s), en("v")], expect: Some(s.into()), label: "xlsx.str.nof.latin1".into() },
+            ],
+        }));
+    }
+    // seeded C19-m18: a string whose text is an error literal / a number / a boolean, in every store
+    for lit in ["#N/A", "#DIV/0!", "TRUE", "1.5"] {
+        v.push(Case::Xlsx(XlsxCase {
+            latin: false,
+            pfx: String::new(),
+            sst: sst_of("", vec![si("", t("", lit))]),
+            cells: vec![
+                shared_cell("", 0, lit, "xlsx.shared.plain"),
+                CellCase { t: Some("inlineStr".into()), kids: wrap_item("", "is", t("", lit), false), expect: Some(lit.into()), label: "xlsx.inline.plain".into() },
+                CellCase { t: Some("str".into()), kids: vec![st("v", &[]), tx(lit), en("v")], expect: Some(lit.into()), label: "xlsx.str.nof".into() },
+                CellCase {
+                    t: Some("str".into()),
+                    kids: vec![st("f", &[]), tx("IF(A1,\"x\",\"y\")"), en("f"), st("v", &[]), tx(lit), en("v")],
+                    expect: Some(lit.into()),
+                    label: "xlsx.str.formula".into(),
+                },
+            ],
+        }));
+    }
+    // seeded C19-m19: xml:space="default" on <t> with blanks around the text
+    {
+        let s = " \u{A0}x \u{3000}";
+        let td = |p: &str, s: &str| vec![st(&q(p, "t"), &[("xml:space", "default")]), tx(s), en(&q(p, "t"))];
+        let mut r = vec![st("r", &[])];
+        r.extend(td("", " a"));
+        r.push(en("r"));
+        r.push(st("r", &[]));
+        r.extend(td("", "b "));
+        r.push(en("r"));
+        v.push(Case::Xlsx(XlsxCase {
+            latin: false,
+            pfx: String::new(),
+            sst: sst_of("", vec![si("", td("", s)), si("", r)]),
+            cells: vec![
+                shared_cell("", 0, s, "xlsx.shared.plain"),
+                shared_cell("", 1, " ab ", "xlsx.shared.rich"),
+                CellCase { t: Some("inlineStr".into()), kids: wrap_item("", "is", td("", s), false), expect: Some(s.into()), label: "xlsx.inline.plain".into() },
+            ],
+        }));
+    }
     // seeded C19-m13: a dual-format file (`Book` stream before / after `Workbook` in directory order)
     for seed in [8u64, 16, 9] {
         let s = "Ωμέγα 日本 text";
@@ -2138,7 +2282,7 @@ fn corpus() -> Vec<Case> {
     {
         let items: Vec<Vec<X>> = (0..12).map(|i| si("", t("", &format!("item{i}")))).collect();
         let mk = |kids: Vec<X>, idx: usize| CellCase { t: Some("s".into()), kids, expect: Some(format!("item{idx}")), label: "xlsx.shared.plain.split_index".into() };
-        v.push(Case::Xlsx(XlsxCase {
+        v.push(Case::Xlsx(XlsxCase { latin: false,
             pfx: String::new(),
             sst: sst_of("", items),
             cells: vec![
@@ -2161,10 +2305,10 @@ fn corpus() -> Vec<Case> {
             kids.push(en("text:p"));
             CellCase { t: None, kids, expect: Some(format!("{cjk}{}end", " ".repeat(n))), label: "ods.sc.lit.long_multibyte.p1".into() }
         };
-        v.push(Case::Ods(OdsCase { cells: vec![mk(em("text:s", &[]), 1)] }));
-        v.push(Case::Ods(OdsCase { cells: vec![mk(st("text:s", &[("text:c", "3")]), 3)] }));
+        v.push(Case::Ods(OdsCase { latin: false, cells: vec![mk(em("text:s", &[]), 1)] }));
+        v.push(Case::Ods(OdsCase { latin: false, cells: vec![mk(st("text:s", &[("text:c", "3")]), 3)] }));
         let ascii: String = "abcdefghij".chars().cycle().take(70_000).collect();
-        v.push(Case::Ods(OdsCase {
+        v.push(Case::Ods(OdsCase { latin: false,
             cells: vec![CellCase {
                 t: None,
                 kids: vec![st("text:p", &[]), tx(&ascii), em("text:s", &[("text:c", "2")]), tx("z"), en("text:p")],
@@ -2198,7 +2342,7 @@ fn corpus() -> Vec<Case> {
             CellCase { t: Some("raw:0".into()), kids, expect: Some("the <value> & more".into()), label: label.into() }
         };
         let shown = vec![st("text:p", &[]), tx("display"), en("text:p")];
-        v.push(Case::Ods(OdsCase {
+        v.push(Case::Ods(OdsCase { latin: false,
             cells: vec![
                 cell(vec![("office:string-value", "the <value> & more"), ("office:value-type", "string")], shown.clone(), "ods.string_value.first"),
                 cell(vec![("office:string-value", "the <value> & more"), ("office:value-type", "string")], vec![], "ods.string_value.first"),
@@ -2262,7 +2406,7 @@ fn corpus() -> Vec<Case> {
             a.push(("count".into(), "4".into()));
             a.push(("uniqueCount".into(), uc.into()));
         }
-        v.push(Case::Xlsx(XlsxCase {
+        v.push(Case::Xlsx(XlsxCase { latin: false,
             pfx: String::new(),
             sst,
             cells: vec![
@@ -2567,11 +2711,34 @@ fn expand(job: Job) -> Vec<Case> {
             let mut r = Rng(seed);
             let long = s.len() > 2000;
             // every string goes through every format; the long ones through one xlsx prefix only (cost)
-            cases.push(Case::Xlsx(gen_xlsx(&mut r, &s, if i % 2 == 0 { "" } else { "x" })));
+            let x0 = gen_xlsx(&mut r, &s, if i % 2 == 0 { "" } else { "x" });
+            if latin_ok(&s) && i % 4 == 1 {
+                let mut l = x0.clone();
+                l.latin = true;
+                for c in l.cells.iter_mut() {
+                    c.label = format!("{}.latin1", c.label);
+                }
+                if latin_ok(&xml(&l.sst)) && latin_ok(&xlsx_sheet_data(&l)) {
+                    cases.push(Case::Xlsx(l));
+                }
+            }
+            cases.push(Case::Xlsx(x0));
             if !long {
                 cases.push(Case::Xlsx(gen_xlsx(&mut r, &s, if i % 2 == 0 { "x" } else { "" })));
             }
-            cases.push(Case::Ods(gen_ods(&mut r, &s)));
+            let ods = gen_ods(&mut r, &s);
+            if latin_ok(&s) && i % 2 == 0 {
+                // the same document in a declared single-byte encoding (every character of it is Latin-1)
+                let mut l = ods.clone();
+                l.latin = true;
+                for c in l.cells.iter_mut() {
+                    c.label = format!("{}.latin1", c.label);
+                }
+                if l.cells.iter().all(|c| latin_ok(&ods_cell_xml(c))) {
+                    cases.push(Case::Ods(l));
+                }
+            }
+            cases.push(Case::Ods(ods));
             let (sst, cells) = gen_bin_cells(&mut r, &s, "xlsb");
             cases.push(Case::Xlsb(XlsbCase { sst, cells }));
             if s.encode_utf16().count() <= 255 || i % 4 == 0 {
